@@ -604,7 +604,12 @@ class Injector:
                     raise t[2](f"injected fault in {kind} call #{n}")
 
 
-EXC = {"Exception": Exception, "RuntimeError": RuntimeError, "KeyboardInterrupt": KeyboardInterrupt, "ValueError": ValueError}
+class SolverFailure(RuntimeError):
+    """A user-defined exception type that derives from RuntimeError."""
+
+
+EXC = {"Exception": Exception, "RuntimeError": RuntimeError, "KeyboardInterrupt": KeyboardInterrupt, "ValueError": ValueError,
+       "NotImplementedError": NotImplementedError, "SolverFailure": SolverFailure}
 
 
 def _faulty_problem(cfg, inj):
@@ -725,7 +730,7 @@ def c11(cfg):
     counts = dict(inj.count)
     ref = {k: _dense_value(P, series[k[0]][(k[1], k[2], k[3])], k[1], k[2]) for k in all_keys}
     kinds = cfg.get("kinds", ["H", "sylvester", "matmul"])
-    excs = cfg.get("exceptions", ["Exception", "RuntimeError", "KeyboardInterrupt"])
+    excs = cfg.get("exceptions", ["Exception", "RuntimeError", "KeyboardInterrupt", "SolverFailure"])
     points = [(kd, n) for kd in kinds for n in range(counts[kd])]
     if cfg.get("double"):
         pts = points
